@@ -11,6 +11,8 @@ CONSTANTS
   EnvShift = 0
   SkipLastBond = FALSE
   DropInnerTag = TRUE
+  Targets <- TargetsThorough
+  CrossedBound = FALSE
   StoreByRef = FALSE
   Emit = FALSE
 INVARIANT WholeCovered
@@ -19,4 +21,5 @@ INVARIANT ExactWhenUntruncated
 INVARIANT NeedIsCross
 INVARIANT EnvConsistent
 INVARIANT SelectUnique
+INVARIANT AroundOK
 CHECK_DEADLOCK FALSE
